@@ -10,10 +10,17 @@ RULE = ("generated bit-vector transition systems with at most 2^10 state valuati
         "{z3, cvc5, push/pop profile (patronus' YICES2 profile with z3 behind it; generalisation off only)} x solver seeds (wrapper scripts first on PATH add smt.random_seed/sat.random_seed/phase options) for systems with "
         "<= full-bits state bits (cvc5: <= cvc5-bits), z3 with generalisation only for the larger ones (histogram `config_set`); each run of the real patronus::mc::pdr in a child "
         "process under a 60 s watchdog; verdict compared with the extracted reach_spec; every Fail witness replayed in the extracted "
-        "Spec/System.v semantics and through patronus::sim::Interpreter. distinct = distinct (system, solver, mode, seed)")
+        "Spec/System.v semantics and through patronus::sim::Interpreter. STATE-LEVEL tie (when /repo has the cfg(patronus_verif) trace hook "
+        "patches/0002-hook-pdr-trace.diff; harness/build.rs detects it): the hook records every solver query of pdr.rs with its answer "
+        "(model / unsat core), every blocked cube and every new frame; the driver runs the extracted CONCRETE model Model/PdrImpl.v with the "
+        "recorded answers as its oracle and compares query sequence (kind, frame, negated cube, TO_STEP literals), blocked cubes, frames, "
+        "activation-literal ids and the verdict event by event (counters runs_with_trace, trace_*). distinct = distinct (system, solver, mode, seed)")
 ASSUMPTIONS = [
-    "pdr.rs is NOT modelled line by line: Spec/ReachFix.v specifies its verdict, Model/Ic3.v its abstract logic; the tie to the code is "
-    "the verdict comparison on generated systems and sampled solver behaviours (two solvers x seeds), not a proof about the Rust source",
+    "three layers: Spec/ReachFix.v specifies the verdict, Model/Ic3.v the abstract logic, Model/PdrImpl.v is a concrete executable model of "
+    "pdr.rs (frames with bookkeeping lists and asserted clauses, get_bad_cube, rel_ind + fix_gen_cube, block_cube, propagate, main loop, BMC "
+    "fallback) over a solver oracle; the model is hand-written and tied to the code by event-by-event replay of the real solver's answers, "
+    "not by a proof about the Rust source; the SMT encoding and the solver are abstracted into the oracle hypothesis (truthful answers)",
+    "termination of block_cube's loop and of the main loop is not proved (fuel-conditional); the BMC fallback is an oracle (C02/C03)",
     "the solvers (z3 4.8.12, cvc5 1.0.3) answer sat/unsat correctly; 'whichever models and cores the solver returns' is sampled, not enumerated",
     "the execution semantics is Spec/System.v (init equations over the valuation itself, simultaneous next-state update, constraints at every step)",
     "a witness cannot carry the later values of a state without next function: for such systems only the verdict is compared",
@@ -44,7 +51,11 @@ def search_streams(tier, seed, diffs):
 
 
 MANIFEST = dict(
-    level_text=("Theorems (Coq, all systems of the class fin_class, unbounded depth): C10_reach_spec_total/_safe/_unsafe - the executable "
+    level_text=("Theorems (Coq): C10_pdr_model_success_sound_sys - for every system of the class fin_class and every truthful solver oracle, "
+                "Success of the concrete model of pdr.rs (Model/PdrImpl.v) implies that no bad state is reachable at any depth "
+                "(bad_reachable of Spec/System.v); C10_pdr_model_fail_real / _definite / _unknown_only - Fail only with a real counterexample "
+                "within the frame bound, never Err/panic under a truthful total solver (termination fuel-conditional). "
+                "C10_reach_spec_total/_safe/_unsafe - the executable "
                 "explicit-state fixpoint reach_spec returns Safe iff no bad state is reachable at any depth by a constrained execution of "
                 "Spec/System.v, Unsafe d iff d is the least such depth, and never runs out of fuel; C10_ic3_* - soundness of the abstract "
                 "IC3/PDR logic (frame invariants imply safety at a fixpoint, every operation preserves them under explicit side conditions, "
